@@ -5,7 +5,7 @@ import numpy as np
 from hypothesis import strategies as st
 
 from vf import gen
-from vf.core import Verdict, lib, mk_basis, nfunc
+from vf.core import Verdict, lib, mk_basis, nfunc, case_hash
 from vf.run import SubCheck
 
 from gbasis.evals.density import evaluate_density, evaluate_posdef_kinetic_energy_density
@@ -54,6 +54,12 @@ def judge(case):
     lmax = max(s["l"] for s in shells)
     h = math.pi / math.sqrt(40 * 2 * emax)
     L = 1.0 + math.sqrt((40 + 4 * (lmax + 2)) / (2 * emin)) + 0.5
+    # one case in four hands the grid over as a float32 array: the spacing is then a power of two, so that every grid point is a
+    # float32 number and the float32 array denotes exactly the same grid
+    f32 = int(case_hash(case), 16) % 4 == 0
+    if f32:
+        h = 2.0 ** math.floor(math.log2(h))
+        v.classes.append("grid-float32")
     npts = int(math.ceil(L / h))
     ax = np.arange(-npts, npts + 1) * h
     w = h ** 3
@@ -66,6 +72,11 @@ def judge(case):
     X, Y = np.meshgrid(ax, ax, indexing="ij")
     for zc in np.array_split(ax, max(1, len(ax) // 6)):
         pts = np.stack([np.repeat(X.ravel(), len(zc)), np.repeat(Y.ravel(), len(zc)), np.tile(zc, X.size)], axis=1)
+        if f32:
+            p32 = pts.astype(np.float32)
+            if not np.array_equal(p32.astype(float), pts):
+                raise RuntimeError("float32 grid does not denote the float64 grid (harness)")
+            pts = p32
         phi = lib(evaluate_basis, bas, pts)
         S += phi @ phi.T * w
         for k, o in enumerate(orders):
